@@ -4,6 +4,7 @@
 set -e
 cd "$(dirname "$0")/.."
 python3 tools/extract.py
+python3 tools/cxx2lean.py
 (cd lean && lake build)
 python3 - <<'PY'
 import sys, os
